@@ -15,6 +15,9 @@ Proof. vm_compute. reflexivity. Qed.
 Lemma gen_aliases_ok : forallb aliases_ok gen_tools = true.
 Proof. vm_compute. reflexivity. Qed.
 
+Lemma gen_documented_ok : forallb documented_ok gen_tools = true.
+Proof. vm_compute. reflexivity. Qed.
+
 Lemma in_gen {P : tool -> bool} t : forallb P gen_tools = true -> In t gen_tools -> P t = true.
 Proof. intros H Hin. rewrite forallb_forall in H. auto. Qed.
 
@@ -319,4 +322,13 @@ Lemma typed_name_last pre name :
   ~ In name pre -> typed_lookup (pre ++ [name]) name = VAtEnd.
 Proof.
   intros H. unfold typed_lookup. rewrite find_argument_app_here by auto. rewrite nth_error_after_last. reflexivity.
+Qed.
+
+(* ---------------------------------------------------------------- documented option names *)
+Lemma documented_accepted t a :
+  In t gen_tools -> In a (t_documented t) -> exists b, In b (t_blocks t) /\ In a (b_aliases b).
+Proof.
+  intros Ht Ha. pose proof (in_gen t gen_documented_ok Ht) as H. unfold documented_ok in H.
+  rewrite forallb_forall in H. specialize (H a Ha). apply existsb_exists in H as (x & Hx & E).
+  apply tok_eqb_eq in E. subst x. apply in_flat_map in Hx. exact Hx.
 Qed.
